@@ -5,9 +5,10 @@ import queue_corr
 def explore(run, lean):
     queue_corr.explore(run, "C15", 800 if run.tier == "quick" else 12000)
     queue_corr.explore_same_objects(run, "C15", 150 if run.tier == "quick" else 3000)
+    queue_corr.explore_eager_recall(run, 60 if run.tier == "quick" else 1500)
     run.extra["rule"] = ("random queued charts (<=8 states) whose handlers post/defer/recall/scribble, capacities 1-5 and 500, "
                          "scripts of start_at + 3-14 client ops (post_fifo, post_lifo, defer, recall, next_rtc, complete_circuit); "
-                         "non-trivial = the script contains an operation the property speaks about; distinct by canonical JSON")
+                         "non-trivial = the script contains an operation the property speaks about; distinct by canonical JSON; a subclass that steps the chart at every post, whose handler recalls the next deferred event when handed one (recall from inside the step an outer recall started)")
 
 
 def replay(case):
